@@ -209,6 +209,33 @@ def semantics_table(srv, res, known, rng):
     expect("call-nil-is-false", "local r = redis.call('GET','t:missing') return {type(r), r == false and 1 or 0}", [b"boolean", 1])
     expect("call-integer", "return redis.call('INCR','t:n')", 1)
     expect("call-array-with-nil", "redis.call('SET','t:a','1') return redis.call('MGET','t:a','t:missing','t:a')", [b"1", None, b"1"])
+    # Lua numbers handed to redis.call: the command must see the number itself - an integer-valued number as
+    # its plain decimal digits (what a client would send), any other as text that parses back to the same double
+    for tag, lit, digits in (("small", "42", b"42"), ("negative", "-7", b"-7"), ("13-digits", "1700000000000", b"1700000000000"),
+                             ("15-digits", "123456789012345", b"123456789012345"), ("16-digits", "1700000000000000", b"1700000000000000"),
+                             ("2^53", "9007199254740992", b"9007199254740992"), ("-2^53", "-9007199254740992", b"-9007199254740992"),
+                             ("computed", "1700000000 * 1000000", b"1700000000000000"), ("tonumber", "tonumber('100000000000000')", b"100000000000000")):
+        ev("return redis.call('SET', KEYS[1], %s)" % lit, keys=[b"t:num"])
+        got = c.cmd("GET", "t:num")
+        res.evaluations += 1
+        res.cell("table", "number-argument", tag)
+        if got != digits:
+            _report(res, known, "table/number-argument/integer", "redis.call('SET', k, %s) stored %s; a client sending that number sends %s" % (lit, resp.show(got), resp.show(digits)))
+    for tag, lit in (("tenth", "0.1"), ("many-digits", "1700000000.123456"), ("tiny", "5e-324"), ("huge", "1e300"), ("third", "1/3"),
+                     ("pi", "math.pi"), ("neg", "-2.5e-10")):
+        ev("return redis.call('SET', KEYS[1], %s)" % lit, keys=[b"t:num"])
+        got = c.cmd("GET", "t:num")
+        want = ev("return tostring(%s == tonumber(redis.call('GET', KEYS[1])))" % lit, keys=[b"t:num"])
+        res.evaluations += 1
+        res.cell("table", "number-argument", tag)
+        if want != b"true":
+            _report(res, known, "table/number-argument/float", "redis.call('SET', k, %s) stored %s, which does not read back as the same number" % (lit, resp.show(got)))
+    c.cmd("DEL", "t:cnt", "t:z", "t:ttl")
+    expect("number-argument-incrby", "redis.call('SET', KEYS[1], '1') return redis.call('INCRBY', KEYS[1], 100000000000000)", 100000000000001, keys=[b"t:cnt"])
+    expect("number-argument-pexpire", "redis.call('SET', KEYS[1], 'v') return redis.call('PEXPIRE', KEYS[1], 1700000 * 1000000)", 1, keys=[b"t:ttl"])
+    expect("number-argument-zadd-score", "redis.call('ZADD', KEYS[1], 1700000000.123456, 'm') return tostring(tonumber(redis.call('ZSCORE', KEYS[1], 'm')) == 1700000000.123456)",
+           b"true", keys=[b"t:z"])
+    expect("number-argument-lrange-index", "redis.call('RPUSH', KEYS[1], 'a', 'b', 'c') return redis.call('LRANGE', KEYS[1], 0, -1)", [b"a", b"b", b"c"], keys=[b"t:nl"])
     # failing redis.call aborts with an error reply; earlier effects persist, later ones are absent
     c.cmd("DEL", "t:before", "t:after", "t:list")
     c.cmd("RPUSH", "t:list", "x")
